@@ -177,6 +177,16 @@ func runC09(c *Ctx) {
 			}
 		}
 	}
+	if c.Level("replace:long outputs") {
+		var longTexts []string
+		for _, n := range []int{65, 130, 300, 1000} {
+			longTexts = append(longTexts, strings.Repeat("c", n), "a"+strings.Repeat("c", n)+"a", strings.Repeat("c", n)+"a"+strings.Repeat("c", n), strings.Repeat("ab", n/2))
+		}
+		for _, p := range []string{"replace all 'a' with 'xyz'", "replace all 'zz' with ''", "replace all 'a' with value value value", "replace all at least 1 'c' with 'X'",
+			"set big to transform set s to match loop if matchLength * 40 <= 0 then break end set s to s + s + s + s break end return s + s end\nreplace all at least 1 'c' with big", "replace last 1 'a' with ''"} {
+			unitSrc(p, longTexts)
+		}
+	}
 	gr("D7", gramD7(), c.Pick(3, 4), texts("a\n", 4), false)
 	gr("D4", gramD4(false), c.Pick(4, 5), texts("ab", 4), true)
 	gr("D4min", gramD4min(), c.Pick(4, 5), texts("ab", 4), true)
@@ -194,7 +204,8 @@ func runC09(c *Ctx) {
 		os.Mkdir(filepath.Join(dir, "d"), 0o755)
 		os.WriteFile(filepath.Join(dir, "d", "x"), []byte("ab\nab"), 0o644)
 		os.WriteFile(filepath.Join(dir, "d", "y"), nil, 0o644)
-		for _, src := range []string{"find all 'a'", "find all any", "replace all 'a' with 'b'", "find all line start", "find all ()", "find all whole file", "find all file end", "find last 1 at least 0 any"} {
+		for _, src := range []string{"replace all 'a' with 'b'\nfind all 'a'", "replace all 'a' with ''\nreplace all 'b' with 'B'\nfind all any", "find all 'a'\nfind all 'b'",
+			"find all 'a'", "find all any", "replace all 'a' with 'b'", "find all line start", "find all ()", "find all whole file", "find all file end", "find last 1 at least 0 any"} {
 			v, err, pi := compileSafe(src)
 			if err != nil || pi != nil {
 				continue
@@ -203,7 +214,11 @@ func runC09(c *Ctx) {
 				for _, pf := range []bool{false, true} {
 					c.Eval(1)
 					c.Nontrivial(1)
-					pi := guard(func() { v.RunFiles(target, engine.NOTHING, pf) })
+					mode := engine.NOTHING
+					if !pf && len(target) == 1 && strings.HasSuffix(target[0], "one") {
+						mode = engine.NEW // the 1-byte file is also searched with NEW (its .vored is written next to it)
+					}
+					pi := guard(func() { v.RunFiles(target, mode, pf) })
 					if pi != nil {
 						c.Violation("RUNFILES-PANIC "+pi.Site, fmt.Sprintf("RunFiles(%q, %v, NOTHING, processFilenames=%v) panics: %s", src, relNames(target, dir), pf, pi.Msg),
 							map[string]any{"kind": "files", "src": src, "targets": relNames(target, dir)})
